@@ -128,7 +128,7 @@ pub fn gen_stream(rng: &mut Rng, p: &SProfile, limit: u32) -> Vec<SFrame> {
             }
             3 => {
                 // oversized body for any opcode
-                let opc = *rng.pick(&[op::SET, op::SET, op::ADD, op::GET, op::APPEND, op::INCR, op::NOOP, op::SETQ, op::DELETE, 0x1c, op::FLUSH, op::GETKQ]);
+                let opc = *rng.pick(&[op::SET, op::SET, op::ADD, op::GET, op::APPEND, op::INCR, op::NOOP, op::SETQ, op::DELETE, 0x1c, op::FLUSH, op::GETKQ, 0x1b, 0x1f, op::PREPENDQ, op::APPENDQ]);
                 let extra = *rng.pick(&[1u32, 1, 2, 7, 100, limit, 3 * limit]);
                 let body = (limit + extra).min(6000);
                 let mut f = Frame::new(opc);
@@ -160,6 +160,17 @@ pub fn gen_stream(rng: &mut Rng, p: &SProfile, limit: u32) -> Vec<SFrame> {
             }
         };
         out.push(f);
+    }
+    if matches!(p.name, "C13" | "C10" | "C09") && rng.chance(1, 5) {
+        // a body length that is not just above the limit but gigabytes above it: refused at once, the few bytes that follow
+        // are part of its body (last frame of the stream: nothing behind it can be reached)
+        let mut f = wire::set_like(*rng.pick(&[op::SET, op::SETQ, op::GET, op::APPEND]), b"huge", b"", 0, 0, 0, rng.next() as u32);
+        f.body_len = Some(*rng.pick(&[0x7fff_ffffu32, 0x8000_0000, 0x8010_0001, 0xffff_ffff, limit.wrapping_add(0x8000_0000), limit.wrapping_add(0x8000_0001)]));
+        let mut b = f.bytes();
+        b.extend(wire::set_like(op::SET, b"smuggled", b"1", 0, 0, 0, 1).bytes());
+        b.extend(vec![b'z'; rng.below(200) as usize]);
+        out.push(SFrame { kind: Kind::Oversize, bytes: b, opcode: f.opcode, opaque: f.opaque });
+        return out;
     }
     if rng.chance(p.tail_fault_pct, 100) {
         let key = rng.pick(&g.keys).clone();
@@ -212,12 +223,12 @@ pub fn directed_streams() -> Vec<Vec<SFrame>> {
     }
     // oversized quiet requests (5000 bytes: above every limit these suites use): answered 'too large' like the loud ones,
     // skipped, and the connection goes on
-    for (i, opc) in [op::APPENDQ, op::PREPENDQ, op::SETQ, op::ADDQ, op::GETKQ, op::DELETEQ].iter().enumerate() {
+    for (i, opc) in [op::APPENDQ, op::PREPENDQ, op::SETQ, op::ADDQ, op::GETKQ, op::DELETEQ, op::SET, op::ADD, op::APPEND, op::REPLACE].iter().enumerate() {
         let b = 0x500 + 0x10 * i as u32;
         let mut f = Frame::new(*opc);
         f.opaque = b + 2;
         f.key = b"dk".to_vec();
-        if matches!(*opc, op::SETQ | op::ADDQ) {
+        if matches!(*opc, op::SETQ | op::ADDQ | op::SET | op::ADD | op::REPLACE) {
             f.extras = vec![0; 8];
         }
         f.value = vec![b'o'; 5000];
@@ -337,6 +348,7 @@ pub fn judge_responses(frames: &[SFrame], limit: u32, out: &[u8], closed: bool, 
     // keys this connection knows to be present: stored by an acknowledged loud set/add/replace and not touched since
     // by anything that could remove them (conservative: any other mutation of the key, any flush, forgets it)
     let mut present: std::collections::HashSet<Vec<u8>> = Default::default();
+    let mut oversized_since: std::collections::HashSet<Vec<u8>> = Default::default();
     let key_of = |b: &[u8]| -> Vec<u8> {
         let el = b[4] as usize;
         let kl = u16::from_be_bytes([b[2], b[3]]) as usize;
@@ -353,6 +365,12 @@ pub fn judge_responses(frames: &[SFrame], limit: u32, out: &[u8], closed: bool, 
             Kind::Std => {
                 let k = key_of(&f.bytes);
                 let is_get_op = matches!(f.opcode, 0x00 | 0x09 | 0x0c | 0x0d);
+                if is_get_op && present.contains(&k) && matches && next.as_ref().map_or(false, |r| r.status != 0) {
+                    let st = next.as_ref().map(|r| r.status).unwrap_or(0);
+                    let props: Vec<&'static str> = if oversized_since.contains(&k) { vec!["C13", "C19", "C01"] } else { vec!["C01", "C12"] };
+                    v.push((props, format!("frame {}: get of a key this connection has stored (and nothing has removed since{}) answers status {:#x}", fi, if oversized_since.contains(&k) { "; a refused oversized request addressed it in between — it must change nothing" } else { "" }, st)));
+                    return v;
+                }
                 if matches!(f.opcode, 0x09 | 0x0d) && present.contains(&k) && !matches {
                     v.push((vec!["C12", "C19"], format!("frame {}: quiet get opcode {:#x} opaque {:#x} of a key this connection has just stored was not answered (next response: {:?})", fi, f.opcode, f.opaque, next.as_ref().map(|r| (r.opcode, r.opaque)))));
                     return v;
@@ -361,6 +379,7 @@ pub fn judge_responses(frames: &[SFrame], limit: u32, out: &[u8], closed: bool, 
                     // only items without a TTL stay known (the conn suites do not move the clock, but a TTL may be 1 s)
                     let ttl = if f.bytes.len() >= 32 { u32::from_be_bytes(f.bytes[28..32].try_into().unwrap()) } else { 1 };
                     if ttl == 0 { present.insert(k.clone()); } else { present.remove(&k); }
+                    oversized_since.remove(&k);
                 } else if f.opcode == 0x08 || f.opcode == 0x18 {
                     present.clear();
                 } else if !is_get_op && !matches!(f.opcode, 0x0a | 0x0b | 0x10) {
@@ -392,6 +411,7 @@ pub fn judge_responses(frames: &[SFrame], limit: u32, out: &[u8], closed: bool, 
                 }
             }
             Kind::Oversize => {
+                oversized_since.insert(key_of(&f.bytes));
                 if matches {
                     let r = next.unwrap();
                     if r.status != 0x03 {
@@ -577,7 +597,7 @@ pub fn run(r: &mut Runner, level: &str, profile: &str, seed: u64, count: u64, ti
             }
         }
     }
-    if level == "conn" && profile == "C11" {
+    if level == "conn" && matches!(profile, "C11" | "C12") {
         big_response(r);
     }
     if level == "conn" && profile == "C18" {
@@ -731,7 +751,7 @@ pub fn big_response(r: &mut Runner) {
         Ok(())
     })();
     if let Err(e) = verdict {
-        r.violations.push((prog, vec!["C11"], start, format!("large response over a real socket: {}", e)));
+        r.violations.push((prog, vec!["C11", "C12"], start, format!("large response over a real socket: {}", e)));
     }
 }
 
